@@ -119,6 +119,13 @@ func (k *Keeper) EthereumTx(goCtx context.Context, msg *evmtypes.MsgEthereumTx) 
 	receipt.GasUsed = response.GasUsed
 	receipt.BlockNumber = big.NewInt(ctx.BlockHeight())
 	receipt.TransactionIndex = uint(txIndex)
+	{
+		// the marshalled receipt does not carry the block-level log index, fill it
+		startLogIndex := uint(k.GetCumulativeLogCountTransient(ctx, true))
+		for i, log := range receipt.Logs {
+			log.Index = startLogIndex + uint(i)
+		}
+	}
 
 	receiptSdkEvent, err := evmtypes.GetSdkEventForReceipt(
 		receipt, // receipt
